@@ -192,6 +192,15 @@ func init() {
 	reg("fmt.Sprintf", func(fr *frame, args []value) value {
 		return fr.symSprintf(concStr(fr, args[0], "fmt.Sprintf"), args[1])
 	})
+	reg("fmt.Appendln", func(fr *frame, args []value) value {
+		return bytesToValues(fmt.Appendln(concBytes(fr, args[0], "fmt.Appendln"), fr.goArgs(args[1])...))
+	})
+	reg("fmt.Append", func(fr *frame, args []value) value {
+		return bytesToValues(fmt.Append(concBytes(fr, args[0], "fmt.Append"), fr.goArgs(args[1])...))
+	})
+	reg("fmt.Appendf", func(fr *frame, args []value) value {
+		return bytesToValues(fmt.Appendf(concBytes(fr, args[0], "fmt.Appendf"), concStr(fr, args[1], "fmt.Appendf"), fr.goArgs(args[2])...))
+	})
 	reg("fmt.Sprint", func(fr *frame, args []value) value { return fmt.Sprint(fr.goArgs(args[0])...) })
 	reg("fmt.Sprintln", func(fr *frame, args []value) value { return fmt.Sprintln(fr.goArgs(args[0])...) })
 	reg("fmt.Errorf", func(fr *frame, args []value) value {
